@@ -18,22 +18,9 @@ theorem i64_xor_ok : Full2 CVal.i64 CVal.i64 CVal.i64 (wBin .xor) f_i64_xor := b
   unfold f_i64_xor
   c03_tac
 
-/-- `i64.shl`: left shift of a negative int64_t is undefined in C -/
-theorem i64_shl_partial : Partial2 CVal.i64 CVal.i64 CVal.i64 Guard.shl64 (wBin .shl) f_i64_shl := by
+theorem i64_shl_ok : Full2 CVal.i64 CVal.i64 CVal.i64 (wBin .shl) f_i64_shl := by
   unfold f_i64_shl
   c03_tac
-
-theorem i64_shl_full_false : ¬ Full2 CVal.i64 CVal.i64 CVal.i64 (wBin .shl) f_i64_shl := by
-  intro h
-  have h := h 0xffffffffffffffff#64 0x1#64 []
-  revert h
-  decide
-
-theorem i64_shl_sound : Sound2 CVal.i64 CVal.i64 CVal.i64 (wBin .shl) f_i64_shl := by
-  unfold f_i64_shl
-  c03_sound
-
-example : Guard.shl64 0x3#64 0x2#64 := by decide
 
 theorem i64_shr_s_ok : Full2 CVal.i64 CVal.i64 CVal.i64 (wBin .shr_s) f_i64_shr_s := by
   unfold f_i64_shr_s
@@ -43,38 +30,12 @@ theorem i64_shr_u_ok : Full2 CVal.i64 CVal.i64 CVal.i64 (wBin .shr_u) f_i64_shr_
   unfold f_i64_shr_u
   c03_tac
 
-/-- `i64.rotl`: I64_ROTL applied to a signed int64_t -/
-theorem i64_rotl_partial : Partial2 CVal.i64 CVal.i64 CVal.i64 Guard.rotl64 (wBin .rotl) f_i64_rotl := by
+theorem i64_rotl_ok : Full2 CVal.i64 CVal.i64 CVal.i64 (wBin .rotl) f_i64_rotl := by
   unfold f_i64_rotl
   c03_tac
 
-theorem i64_rotl_full_false : ¬ Full2 CVal.i64 CVal.i64 CVal.i64 (wBin .rotl) f_i64_rotl := by
-  intro h
-  have h := h 0xfffffffffffffffe#64 0x1#64 []
-  revert h
-  decide
-
-theorem i64_rotl_sound : Sound2 CVal.i64 CVal.i64 CVal.i64 (wBin .rotl) f_i64_rotl := by
-  unfold f_i64_rotl
-  c03_sound
-
-example : Guard.rotl64 0x1#64 0x4#64 := by decide
-
-/-- `i64.rotr`: I64_ROTR applied to a signed int64_t -/
-theorem i64_rotr_partial : Partial2 CVal.i64 CVal.i64 CVal.i64 Guard.rotr64 (wBin .rotr) f_i64_rotr := by
+theorem i64_rotr_ok : Full2 CVal.i64 CVal.i64 CVal.i64 (wBin .rotr) f_i64_rotr := by
   unfold f_i64_rotr
   c03_tac
-
-theorem i64_rotr_full_false : ¬ Full2 CVal.i64 CVal.i64 CVal.i64 (wBin .rotr) f_i64_rotr := by
-  intro h
-  have h := h 0xfffffffffffffffe#64 0x1#64 []
-  revert h
-  decide
-
-theorem i64_rotr_sound : Sound2 CVal.i64 CVal.i64 CVal.i64 (wBin .rotr) f_i64_rotr := by
-  unfold f_i64_rotr
-  c03_sound
-
-example : Guard.rotr64 0x1#64 0x4#64 := by decide
 
 end WaVerif.C03.Rows
